@@ -181,9 +181,6 @@ def run_case(root, idx, case):
         for sub in case.get("dirs", []):
             os.makedirs(os.path.join(d, sub), exist_ok=True)
         res = F.compile_files([], case["args"], cwd=d, timeout=TIMEOUT, entry="main")
-        if res["timeout"]:
-            # a loaded machine is not a hang: only a case that still does not answer with ten times the budget counts
-            res = F.compile_files([], case["args"], cwd=d, timeout=10 * TIMEOUT, entry="main")
         missing = []
         if res["rc"] == 0 and not res["timeout"]:
             missing = [p for p in case.get("expect", []) if not os.path.isfile(os.path.join(d, p))]
